@@ -18,11 +18,16 @@ NetLike == {"IPVersion", "Host", "Port", "Network", "HostString", "PortString", 
             "IntroducerTagString", "Options", "TransportStyle", "GetOption", "CheckOption"}
 NoneIn(stale, S) == \A i \in 1..Len(stale) : stale[i].method \notin S
 JWarmEdit(e) ==
-  LET r == e.r  cls == e.fn \o "/" \o e.cls  live == r.setup /\ r.nplaces > 0 IN
+  LET r == e.r  cls == e.fn \o "/" \o e.cls  live == r.setup /\ r.nplaces > 0
+      HasSib == r.setup /\ "nsibling" \in DOMAIN r /\ r.nsibling > 0 IN
   << R("X06", "warm_edit_set_up", TRUE, live, cls),
      R("X06", "queries_follow_edits_made_through_exported_fields", live, Len(r.stale) = 0, cls),
      R("C07", "hash_and_addresses_follow_edits_made_through_exported_fields", live, NoneIn(r.stale, HashLike), cls),
      R("C10", "serialised_block_follows_edits_made_through_exported_fields", live /\ e.family = "ident", NoneIn(r.stale, SerLike), cls),
      R("C01", "serialisation_follows_edits_made_through_exported_fields", live, NoneIn(r.stale, SerLike), cls),
-     R("C17", "address_queries_follow_edits_made_through_exported_fields", live /\ e.family = "raddr", NoneIn(r.stale, NetLike), cls) >>
+     R("C17", "address_queries_follow_edits_made_through_exported_fields", live /\ e.family = "raddr", NoneIn(r.stale, NetLike), cls),
+     \* a struct copy of the value, edited through an exported field, queried and serialised: the original and its input buffer do not notice
+     R("C01", "serialisation_unaffected_by_serialising_an_edited_copy", HasSib, NoneIn(r.sibling, SerLike), cls),
+     R("C02", "answers_unaffected_by_serialising_an_edited_copy", HasSib, Len(r.sibling) = 0, cls),
+     R("C08", "input_buffer_unaffected_by_serialising_an_edited_copy", HasSib, r.sibling_in_same, cls) >>
 =============================================================================
